@@ -7,7 +7,7 @@ props = [json.loads(l)["id"] for l in open(os.path.join(HERE, "properties.jsonl"
 CLAIMS = {
  "C01": ("exploration", "8.C01", "seeded simulation: write, restart of the simulated tag (fresh activation), read back + independent image parse",
          "Seeded exploration over well-formed layouts of all four tag types (silicon models with persistent memory), message length classes and previous contents: write through the real tag stack, discard all reader state by a simulated field reset, read back through a fresh activation and parse the simulated storage independently; reported capacity vs layout model; oversize rejected with zero commands. Sampling, not proof.",
-         "tag silicon models (DESIGN Appendix A) and the layout generator define 'well-formed'; emulated Type 3 Tag round trip is covered only when the W3 phase is present"),
+         "tag silicon models (DESIGN Appendix A) and the layout generator define 'well-formed'; the emulated Type 3 Tag (phase emu) is the library's Type3TagEmulation behind connect(card=...) on one simulated node, read and written by a second real stack over the real udp driver"),
  "C02": ("fault_enumeration", "8.C02", "deterministic simulation with power-cut fault at every state-changing command, fresh-reader oracle",
          "For each seeded (type, layout, old, new) scenario the tag is removed from the field after the k-th state-changing command for every k (all k up to 48 writes; phase-boundary windows plus a seeded sample beyond), then a fresh reader and an independent image parser must see old, empty/unreadable or new. Enumerative in the crash-point dimension, sampled in the input dimensions.",
          "write units are atomic in the silicon models; Type 4 layouts with MLc smaller than the NLEN field are excluded (no writer can commit atomically)"),
